@@ -13,7 +13,10 @@ run on other data, (same) an instance already run on the VERY tensor objects tha
 (the caller's spike train kept as rows of one bool tensor), (shared2) two instances restored from ONE deserialised
 checkpoint object and stepped alternately, (rewind) one instance restored from one deserialised object, stepped, and
 restored from the same object again; the continuation is compared with the uninterrupted run with `torch.equal` on every
-output and every state variable (buffers, parameters, extras, derived reads).  Outside the property's proviso (lazily shaped
+output and every state variable (buffers, parameters, extras, derived reads).  About half of the scenarios (and the forced-coverage
+scenario of every adaptive neuron class) have training / inference PHASES: a per-step schedule of adapting and non-adapting steps
+(given per call with `adapt=` or through the neurons' train() / eval() mode), and restore targets whose prior steps were inference
+only, training then inference, or training - a validation instance into which training checkpoints are loaded, and vice versa.  Outside the property's proviso (lazily shaped
 recorders / `feedback_spikes` not yet materialised on one side; pending accumulator parts) the load must raise the
 strict-load `RuntimeError` — or resume exactly; silent divergence is a violation.
 """
@@ -449,6 +452,32 @@ def key_of_machine(case, d):
 # =====================================================================================================
 # (B) real resume runs
 
+TARGET_PRIORS = ["inference-tail", "inference", "training"]
+
+
+def adapt_schedule(rng, T):
+    """per-step phases of a run: blocks of adapting (training) and non-adapting (inference / validation) steps with 1-3 switches;
+    starts adapting 4 times out of 5, so that learned adaptations exist when inference begins"""
+    cuts = sorted(rng.sample(range(1, T), min(rng.choice([1, 2, 3]), T - 1)))
+    flag, out = rng.random() < 0.8, []
+    for t in range(T):
+        if t in cuts:
+            flag = not flag
+        out.append(bool(flag))
+    return out
+
+
+def prior_schedule(prior, nsteps):
+    """phases of the steps a restore target ran BEFORE the load ("the target model in an arbitrary prior state"):
+    training = all adapting; inference = none adapting (a model instance only ever used for validation);
+    inference-tail = trained, then used for inference (at least the last step does not adapt)"""
+    if prior in (None, "training"):
+        return [True] * nsteps
+    if prior == "inference":
+        return [False] * nsteps
+    return [i < (nsteps - 1) // 2 for i in range(nsteps)]
+
+
 def scenario(rng, idx, T, force=None):
     """a network + trainer + classifier configuration whose uninterrupted run is non-trivial (spikes occur)"""
     force = force or {}
@@ -468,6 +497,11 @@ def scenario(rng, idx, T, force=None):
               "other_steps": rng.choice([2, 3, 4, 5]),
               # the caller's spike train: rows of ONE bool tensor per driven connection (True) or separate float tensors
               "xbool": bool(force["xbool"] if "xbool" in force else rng.random() < 0.6)}
+        # training / inference phases: which steps let the neurons adapt (None = every step adapts, as a pure training run).
+        # `adapt_via`: the phase is given per call (`adapt=` keyword) or through the neurons' train() / eval() mode.
+        modes = force["modes"] if "modes" in force else (rng.random() < 0.5)
+        sc["adapt_sched"] = adapt_schedule(rng, T) if modes else None
+        sc["adapt_via"] = rng.choice(["kwarg", "mode"]) if modes else "kwarg"
         sim = Sim(sc, 0)
         U = sim.run_all()
         if U["nspikes"] > 0 or attempt == 5:
@@ -489,6 +523,8 @@ class Sim:
         if sc["clf"]:
             self.clf = learn.MaxRateClassifier(self.net.neurons[0].shape, sc["clf"]["classes"], decay=sc["clf"]["decay"])
         self.steps_taken = 0
+        if sc.get("adapt_sched") and sc.get("adapt_via") == "mode":
+            self.net.cfg["adapt"] = None      # `adapt=None`: the neurons follow their own train() / eval() mode
 
     def objs(self):
         return {"layer": self.net.layer, "trainer": self.trainer, "clf": self.clf}
@@ -504,14 +540,26 @@ class Sim:
         L = [torch.randint(0, self.sc["clf"]["classes"] if self.sc["clf"] else 2, (self.net.batch,), generator=g) for _ in range(T)]
         return X, R, L
 
-    def step(self, t, X, R, L, clear=False, stop_before_update=False):
+    def step(self, t, X, R, L, clear=False, stop_before_update=False, adapt=None):
+        """`adapt`: the phase of this step (True = training, the neurons adapt; False = inference); None = the run's own
+        schedule `sc["adapt_sched"][t]` (every step adapts when the scenario has no schedule)"""
         out = {}
+        sched = self.sc.get("adapt_sched")
+        if adapt is None and sched:
+            adapt = sched[t]
         with torch.no_grad():
             if clear:
                 if self.trainer is not None:
                     self.trainer.clear(keepshape=True)
                 self.net.layer.clear()
-            spikes = self.net.step(X[t])
+            if adapt is None:
+                spikes = self.net.step(X[t])
+            elif sched and self.sc.get("adapt_via") == "mode":
+                for n in self.net.neurons:
+                    n.train(bool(adapt))
+                spikes = self.net.step(X[t])
+            else:
+                spikes = self.net.step(X[t], adapt=bool(adapt))
             for i, s in enumerate(spikes):
                 out[f"spikes{i}"] = s.detach().clone()
             if self.trainer is not None:
@@ -580,14 +628,16 @@ def category(name: str) -> str:
     return "other"
 
 
-def make_target(sc, kind, variant):
-    """fresh0: freshly constructed; a: fresh + one unrelated step; b: run on other data"""
+def make_target(sc, kind, variant, prior=None):
+    """fresh0: freshly constructed; a: fresh + one unrelated step; b: run on other data.  `prior`: the phases of those steps
+    (see prior_schedule) when the scenario has training / inference phases"""
     tg = Sim(sc, variant)
     nsteps = {"fresh0": 0, "a": 1, "b": sc["other_steps"], "clone": 1}[kind]
     if nsteps:
         X, R, L = tg.inputs(sc["xseed"] + 1000 + variant, nsteps)
+        ph = prior_schedule(prior, nsteps) if sc.get("adapt_sched") else [None] * nsteps
         for t in range(nsteps):
-            tg.step(t, X, R, L)
+            tg.step(t, X, R, L, adapt=ph[t])
     if kind == "clone":
         # an instance of the same configuration obtained by copy.deepcopy of a LIVE template (which then moves on):
         # nothing the clone does on load / afterwards may act on, or read from, the template
@@ -617,11 +667,11 @@ def inputs_touched(U, restore=True):
     return bad
 
 
-def resume_case(sc, U, k, tkind, variant):
+def resume_case(sc, U, k, tkind, variant, prior=None):
     """returns (status, detail): status in ok | rejected | diverged | wrong-error"""
     phase = {"at": "building the target"}
     try:
-        status, detail = resume_case_(sc, U, k, tkind, variant, phase)
+        status, detail = resume_case_(sc, U, k, tkind, variant, phase, prior)
     except Exception as e:
         if phase["at"] == "building the target":
             inputs_touched(U)
@@ -669,7 +719,7 @@ def try_load(tg, sd):
     return None
 
 
-def resume_case_(sc, U, k, tkind, variant, phase):
+def resume_case_(sc, U, k, tkind, variant, phase, prior=None):
     """target kinds
       fresh0 / a / b   see make_target (one torch.load per restore)
       same             the target has already been run over the VERY tensor objects of the run (all T steps), is restored to
@@ -686,11 +736,12 @@ def resume_case_(sc, U, k, tkind, variant, phase):
             tg.step(t, X, R, L)
         targets = [("", tg)]
     elif tkind == "shared2":
-        targets = [("first instance: ", make_target(sc, "a", variant)), ("second instance: ", make_target(sc, "b", variant + 1))]
+        targets = [("first instance: ", make_target(sc, "a", variant, prior)),
+                   ("second instance: ", make_target(sc, "b", variant + 1, prior))]
     elif tkind == "rewind":
-        targets = [("", make_target(sc, "a" if variant % 2 else "b", variant))]
+        targets = [("", make_target(sc, "a" if variant % 2 else "b", variant, prior))]
     else:
-        targets = [("", make_target(sc, tkind, variant))]
+        targets = [("", make_target(sc, tkind, variant, prior))]
     phase["at"] = "loading"
     for who, tg in targets:
         bad = try_load(tg, sd)
@@ -737,17 +788,19 @@ def summarize(sc):
             "trainer": sc["trainer"]["kind"] if sc["trainer"] else None, "clf": bool(sc["clf"]), "batch": n["batch"]}
 
 
-def judge(ex, sc, k, tkind, status, detail, stream="main"):
+def judge(ex, sc, k, tkind, status, detail, stream="main", prior=None):
     inprov = (not lazy(sc)) or ((k == 0) == (tkind == "fresh0"))     # "clone" has seen one step, like "a"
     case = {"stream": stream, "scenario": sc, "summary": summarize(sc), "checkpoint_step": k, "target": tkind,
-            "in_proviso": inprov, "status": status, "detail": detail}
+            "target_prior": prior, "in_proviso": inprov, "status": status, "detail": detail}
     ex.count("resume-outcome", f"{'in' if inprov else 'out-of'}-proviso:{status}")
     if status == "diverged":
         cat = category(detail["entry"])
         key = f"C12:diverges:{cat}"
         if cat == "classifier" and k == 0:
             key = KEY_CLF
-        add_finding(ex, key, f"checkpoint at step {k} restored into target '{tkind}' diverges from the uninterrupted run at step "
+        add_finding(ex, key, f"checkpoint at step {k} restored into target '{tkind}'"
+                    + (f" (prior steps of the target: {prior or ('none' if tkind == 'fresh0' else 'the whole run')}; phases of the run, "
+                       f"True = adapting: {sc['adapt_sched']} via {sc['adapt_via']})" if sc.get("adapt_sched") else "") + " diverges from the uninterrupted run at step "
                     f"{detail['step']} ({detail['when']}): {detail['entry']}: {detail['what']} [{json.dumps(summarize(sc))}]", case)
     elif status == "wrong-error":
         add_finding(ex, "C12:load-wrong-error", f"load at step {k} into '{tkind}' raised {detail}", case)
@@ -767,7 +820,8 @@ def forced_coverage(thorough):
     """every neuron class, synapse class, connection class ± delay, layer kind, STDP and MSTDPET, classifier, in-place on/off"""
     fs = []
     for i, nk in enumerate(nb.NEURON_KINDS):
-        fs.append({"neuron": nk, "layer": nb.LAYERS[i % 3], "trainer": ["STDP", "MSTDPET", None][i % 3], "inplace": bool(i % 2)})
+        fs.append({"neuron": nk, "layer": nb.LAYERS[i % 3], "trainer": ["STDP", "MSTDPET", None][i % 3], "inplace": bool(i % 2),
+                   "modes": nk in nb.ADAPTIVE})
     for i, sk in enumerate(nb.SYNAPSES):
         fs.append({"synapse": sk, "delayed": True, "layer": "serial", "conn": nb.CONNECTIONS[i], "trainer": ["MSTDPET", "STDP"][i % 2],
                    "inplace": bool((i + 1) % 2)})
@@ -810,6 +864,9 @@ def resume_search(ctx, ex, thorough):
             ex.count("neuron", x)
         ex.count("inplace", str(sc["net"]["conns"][0]["synapse"]["inplace"]))
         ex.count("spiking", "yes" if U["nspikes"] else "no")
+        ex.count("phases", "training-only" if not sc["adapt_sched"] else f"training+inference via {sc['adapt_via']}")
+        if sc["adapt_sched"] and any(x["kind"] in nb.ADAPTIVE for x in sc["net"]["neurons"]):
+            ex.count("phases", "training+inference with adaptive neurons")
         if len(ex.samples) < 3:
             ex.samples.append(s)
         variant = 0
@@ -821,12 +878,17 @@ def resume_search(ctx, ex, thorough):
             kinds += extra if thorough else [extra[(idx + k) % 3]]
             # (layers and trainers cannot be copy.deepcopy'ed at all on the unchanged tree - WeakMethod hook wrappers and
             # record finalizers raise TypeError - so clone targets exist for the classifier stream only)
-            for tkind in kinds:
+            for j, tkind in enumerate(kinds):
                 variant += 1
-                status, detail = resume_case(sc, U, k, tkind, variant)
+                # what the target did before the load: rotates over inference-tail / inference / training (phased scenarios only)
+                # (fresh0 has no prior steps; `same` has run the whole phased run itself)
+                prior = TARGET_PRIORS[(k + j) % 3] if (sc["adapt_sched"] and tkind not in ("fresh0", "same")) else None
+                if prior:
+                    ex.count("target-prior", prior)
+                status, detail = resume_case(sc, U, k, tkind, variant, prior)
                 ex.evaluations += 1
                 ex.traces_validated += 1
-                judge(ex, sc, k, tkind, status, detail)
+                judge(ex, sc, k, tkind, status, detail, prior=prior)
                 if status == "ok" and U["nspikes"]:
                     ex.nontriv(("resume", idx, k, tkind, json.dumps(s)))
         done += 1
@@ -848,7 +910,8 @@ def pending_stream(ctx, ex, thorough):
     n = 10 if thorough else 4
     for idx in range(n):
         tk = ["STDP", "MSTDPET"][idx % 2] if idx < 4 else rng.choice(["STDP", "MSTDPET", "TripletSTDP", "MSTDP", "KernelSTDP"])
-        sc, U0 = scenario(rng, 1000 + idx, T, {"trainer": tk, "layer": rng.choice(["serial", "serial", "biclique"]), "clf": False})
+        sc, U0 = scenario(rng, 1000 + idx, T, {"trainer": tk, "layer": rng.choice(["serial", "serial", "biclique"]), "clf": False,
+                                               "modes": False})
         sc["clear_at"] = None
         for k in range(1, T):
             # the source: k full steps, then step k up to (not including) update()
@@ -1050,7 +1113,10 @@ def explore(ctx) -> Exploration:
                "torch.load → load_state_dict(strict=True) into targets fresh0 / a (one unrelated step) / b (run on other data) / same (already run on "
                "the very input tensor objects that are replayed; spike trains as rows of one bool tensor in ~60% of the scenarios) / shared2 (two "
                "instances restored from one deserialised object, run alternately) / rewind (restored, run on, restored again from the same "
-               "object), continuation compared with torch.equal on all outputs and state; the machine cases of (A2) likewise restore once, twice "
+               "object), continuation compared with torch.equal on all outputs and state; ~half of the scenarios (always those forced for the adaptive "
+               "neuron classes) run in training / inference phases (per-step adapting / non-adapting schedule with 1-3 switches, by `adapt=` keyword or "
+               "train()/eval() mode of the neurons) and their a / b / shared2 / rewind targets rotate over prior histories inference-only / "
+               "training-then-inference / training-only; the machine cases of (A2) likewise restore once, twice "
                "from one object (`reload`), or into two targets, and present held observation tensors again after the restore; (C) checkpoints between trainer() and update(); (D) classifier alone. Non-trivial = the "
                "load was accepted and the resumed run was compared over the whole continuation of a run in which spikes occurred")
     return ex
@@ -1075,7 +1141,7 @@ def replay(ctx, data) -> int:
         U = Sim(sc, 0).run_all()
         bad = 0
         for variant in range(1, 4):
-            status, detail = resume_case(sc, U, case["checkpoint_step"], case["target"], variant)
+            status, detail = resume_case(sc, U, case["checkpoint_step"], case["target"], variant, case.get("target_prior"))
             print(f"checkpoint step {case['checkpoint_step']} -> target {case['target']} (variant {variant}): {status} {detail}")
             inprov = case["in_proviso"]
             bad += status in ("diverged", "wrong-error") or (status == "rejected" and inprov)
